@@ -70,7 +70,12 @@ struct Dg {
     std::string cls = "req";         // req ind rsp err
     char method = 'b';               // b binding, o other (Allocate)
     unsigned long long txid = 1000;  // < 1000: the victim's own k-th transaction, otherwise a foreign id
-    std::string mi = "abs";          // abs loc rem bad trunc
+    // integrity-relevant layout of the attribute list behind the ordinary attributes, wire order, tokens joined by '+' ("-" = none):
+    //   loc rem bad trunc  MESSAGE-INTEGRITY (HMAC over the preceding bytes under the local / remote password, a wrong key; length != 20)
+    //   fp fpbad           FINGERPRINT with the right / a wrong CRC over the preceding bytes
+    //   u                  an unknown comprehension-optional attribute
+    //   sw                 a USERNAME attribute whose length field runs past the end of the datagram (swallows what follows)
+    std::string mi = "-";
     bool uc = false;
     char role = 'n';                 // n none, g controlling, d controlled
     unsigned long long prio = 0;
@@ -81,22 +86,31 @@ struct Dg {
         return "dg " + std::to_string(src) + " " + cls + " " + method + " " + std::to_string(txid) + " " + mi + " " + (uc ? "1" : "0") + " " +
             role + " " + std::to_string(prio) + " " + std::to_string(user);
     }
-    bool authentic() const { return !app && ((cls == "req" || cls == "ind") ? mi == "loc" : mi == "rem"); }
+    std::vector<std::string> tokens() const
+    {
+        std::vector<std::string> t;
+        if (mi == "-") return t;
+        size_t i = 0;
+        while (i <= mi.size()) { size_t j = mi.find('+', i); if (j == std::string::npos) j = mi.size(); t.push_back(mi.substr(i, j - i)); i = j + 1; }
+        return t;
+    }
+    // Independent of library and model: the integrity attribute that protects the message by RFC 5389 15.4/15.5 — the first
+    // MESSAGE-INTEGRITY, provided neither a FINGERPRINT (last attribute of a message) nor the end of the data comes first.
+    // "abs" = the message is not integrity protected at all.
+    std::string integrity() const
+    {
+        for (const auto &t : tokens()) {
+            if (t == "fp" || t == "fpbad" || t == "sw") return "abs";
+            if (t == "loc" || t == "rem" || t == "bad" || t == "trunc") return t;
+        }
+        return "abs";
+    }
+    bool authentic() const { return !app && ((cls == "req" || cls == "ind") ? integrity() == "loc" : integrity() == "rem"); }
+    bool plain() const { return mi == "-" || mi == "fp" || mi == integrity() || mi == integrity() + "+fp"; }   // layouts the real encoder produces
 };
 
-// MESSAGE-INTEGRITY attribute whose length field is not 20 (message framing stays consistent)
-static QByteArray truncateMi(QByteArray b, int newLen)
-{
-    // b was encoded with a key and without fingerprint: the last 24 bytes are the MI attribute
-    const int pad = (4 - newLen % 4) % 4;
-    b.chop(20);
-    b.append(QByteArray(newLen + pad, '\x5a'));
-    b[b.size() - newLen - pad - 2] = char(newLen >> 8);
-    b[b.size() - newLen - pad - 1] = char(newLen & 0xff);
-    const int body = b.size() - 20;
-    b[2] = char(body >> 8); b[3] = char(body & 0xff);
-    return b;
-}
+static void setLen(QByteArray &b, int body) { b[2] = char(body >> 8); b[3] = char(body & 0xff); }
+static void putAttrHeader(QByteArray &b, int type, int len) { b.append(char(type >> 8)); b.append(char(type & 0xff)); b.append(char(len >> 8)); b.append(char(len & 0xff)); }
 
 struct Creds { QString localUser, localPw, remoteUser, remotePw; };
 
@@ -119,15 +133,35 @@ static QByteArray forge(const Dg &d, const Creds &c, const QList<QByteArray> &vi
     }
     if (d.user == 1) m.setUsername(c.localUser + QLatin1Char(':') + c.remoteUser);
     if (d.user == 2) m.setUsername(QStringLiteral("mallory:eve"));
-    const bool fp = rng.coin();
-    if (d.mi == "abs") return m.encode(QByteArray(), fp);
-    if (d.mi == "loc") return m.encode(c.localPw.toUtf8(), fp);
-    if (d.mi == "rem") return m.encode(c.remotePw.toUtf8(), fp);
-    if (d.mi == "bad") return m.encode(rng.coin() ? QByteArray("not-the-session-password") : c.localPw.toUtf8() + "x", fp);
-    static const int lens[] = { 0, 12, 16, 19, 24 };
-    // right key for the class, so that only the length is wrong
-    const QByteArray key = (d.cls == "req" || d.cls == "ind") ? c.localPw.toUtf8() : c.remotePw.toUtf8();
-    return truncateMi(m.encode(key, false), lens[rng.below(5)]);
+    // ordinary attributes from the real encoder, then the integrity-relevant trailer BY HAND in the order the layout says
+    QByteArray b = m.encode(QByteArray(), false);
+    for (const auto &t : d.tokens()) {
+        if (t == "u") {
+            putAttrHeader(b, 0x8030, 5); b.append("hello", 5); b.append(QByteArray(3, '\0'));
+        } else if (t == "sw") {
+            putAttrHeader(b, 0x0006, 0x0400);     // USERNAME claiming 1024 bytes: whatever follows lies inside its value
+        } else if (t == "fp" || t == "fpbad") {
+            QByteArray copy = b; setLen(copy, b.size() - 20 + 8);
+            quint32 crc = QXmppUtils::generateCrc32(copy) ^ 0x5354554eu;
+            if (t == "fpbad") crc ^= 1u << rng.below(32);
+            putAttrHeader(b, 0x8028, 4);
+            for (int k = 3; k >= 0; k--) b.append(char((crc >> (8 * k)) & 0xff));
+        } else {
+            QByteArray key = t == "loc" ? c.localPw.toUtf8() : t == "rem" ? c.remotePw.toUtf8()
+                           : (rng.coin() ? QByteArray("not-the-session-password") : c.localPw.toUtf8() + "x");
+            if (t == "trunc") key = (d.cls == "req" || d.cls == "ind") ? c.localPw.toUtf8() : c.remotePw.toUtf8();   // right key, only the length is wrong
+            QByteArray copy = b; setLen(copy, b.size() - 20 + 24);
+            QByteArray mac = QXmppUtils::generateHmacSha1(key, copy);
+            if (t == "trunc") {
+                static const int lens[] = { 0, 12, 16, 19, 24 };
+                const int n = lens[rng.below(5)];
+                mac = (mac + QByteArray(8, '\x5a')).left(n);
+                putAttrHeader(b, 0x0008, n); b.append(mac); b.append(QByteArray((4 - n % 4) % 4, '\0'));
+            } else { putAttrHeader(b, 0x0008, 20); b.append(mac); }
+        }
+    }
+    setLen(b, b.size() - 20);
+    return b;
 }
 
 // ---------------------------------------------------------------------------------------------- one real agent
@@ -179,9 +213,11 @@ struct Agent {
         if (t == QXmppLogger::WarningMessage) {
             if (s.startsWith(QLatin1String("Role conflict"))) warns << QStringLiteral("rc");
             else if (s == QLatin1String("Bad message integrity")) warns << QStringLiteral("mi");
+            else if (s == QLatin1String("Bad fingerprint")) warns << QStringLiteral("fp");
+            else if (s.startsWith(QLatin1String("Truncated STUN attribute"))) warns << QStringLiteral("ta");
             else if (s.contains(QLatin1String("MESSAGE-INTEGRITY")) && s.contains(QLatin1String("missing"), Qt::CaseInsensitive)) warns << QStringLiteral("nomi");
             else if (s.startsWith(QLatin1String("Skipping "))) { /* decoder chatter printed only when decoding failed */ }
-            else warns << QStringLiteral("other");
+            else { warns << QStringLiteral("other"); if (getenv("C15_DEBUG")) fprintf(stderr, "WARN %s\n", qPrintable(s)); }
             return;
         }
         if (s.startsWith(QLatin1String("ICE gathering state")) || s.startsWith(QLatin1String("ICE negotiation completed"))) return;
@@ -366,15 +402,16 @@ struct Victim {
         const bool reaction = !seen.r.isEmpty() || !seen.c.isEmpty() || !ag.ps.isEmpty() || !ag.sel.isEmpty() || ag.sig > 0 ||
             ag.comp->isConnected() != wasConnected;
         if (dg && !dg->app) {
-            stat("dg_" + dg->cls + "_" + dg->mi);
+            stat("dg_" + dg->cls + "_" + dg->integrity()); if (!dg->plain()) stat("dg_odd_layout");
             if (!dg->authentic()) {
                 if (!reaction) oraclePass()++;
                 else {
-                    std::string key = "C15:unauthenticated-" + dg->mi + "-" + dg->cls + "-has-effect";
-                    if (dg->mi == "abs" && dg->cls == "req") key = "C15:binding-request-without-mi-processed";
-                    if (dg->mi == "abs" && (dg->cls == "rsp" || dg->cls == "err")) key = "C15:binding-response-without-mi-accepted";
+                    const std::string in = dg->integrity();
+                    std::string key = "C15:unauthenticated-" + in + "-" + dg->cls + "-has-effect";
+                    if (in == "abs" && dg->cls == "req") key = "C15:binding-request-without-mi-processed";
+                    if (in == "abs" && (dg->cls == "rsp" || dg->cls == "err")) key = "C15:binding-response-without-mi-accepted";
                     oracleFail(key, history + " => " + observe(seen));
-                    stat("oracle_reaction_" + dg->mi + "_" + dg->cls);
+                    stat("oracle_reaction_" + in + "_" + dg->cls);
                 }
             } else if (reaction) stat("authentic_with_effect");
             // a learned peer-reflexive candidate takes the PRIORITY of the request that created it
@@ -455,7 +492,7 @@ struct Victim {
             else oracleFail("C15:malformed-datagram-has-effect", rep);
         }
     }
-    static Dg mk0(const char *cls, const char *mi, unsigned long long txid) { Dg d; d.src = 9; d.cls = cls; d.mi = mi; d.txid = txid; return d; }
+    static Dg mk0(const char *cls, const char *mi, unsigned long long txid) { Dg d; d.src = 9; d.cls = cls; d.mi = std::string(mi) + "+fp"; d.txid = txid; return d; }
 };
 
 static void drainAll()
@@ -493,9 +530,20 @@ static void runScenario(const Scenario &sc, Rng &rng, int fuzz = 0)
 
 static unsigned long long hostPrio(int comp) { return rfcCandidatePriority(126, 65535, comp); }
 
+// "abs loc rem bad trunc" = what the real encoder lays out (nothing / one MESSAGE-INTEGRITY, with or without a trailing FINGERPRINT,
+// alternating deterministically); anything else is taken as an explicit layout
+static std::string layoutOf(const std::string &mi)
+{
+    static unsigned toggle = 0;
+    const bool fp = (toggle++ % 2) == 0;
+    if (mi == "abs") return fp ? "fp" : "-";
+    if (mi == "loc" || mi == "rem" || mi == "bad" || mi == "trunc") return fp ? mi + "+fp" : mi;
+    return mi;
+}
+
 static Dg mk(int src, const char *cls, const char *mi, unsigned long long txid, bool uc = false, char role = 'n', unsigned long long prio = 1853817087ull, int user = 0, char method = 'b')
 {
-    Dg d; d.src = src; d.cls = cls; d.mi = mi; d.txid = txid; d.uc = uc; d.role = role; d.prio = prio; d.user = user; d.method = method;
+    Dg d; d.src = src; d.cls = cls; d.mi = layoutOf(mi); d.txid = txid; d.uc = uc; d.role = role; d.prio = prio; d.user = user; d.method = method;
     return d;
 }
 static Dg appDg(int src, const QByteArray &p) { Dg d; d.src = src; d.app = true; d.payload = p; return d; }
@@ -542,6 +590,21 @@ static std::vector<Dg> reducedAlphabet(bool full)
                     a.push_back(mk(src, cls, mi, 4242));    // a guessed one
                 }
             }
+    // odd attribute layouts built by hand: MESSAGE-INTEGRITY behind FINGERPRINT (garbage, wrong key, even the right key), bad
+    // FINGERPRINT, two MESSAGE-INTEGRITY attributes, unknown attributes in front, MESSAGE-INTEGRITY swallowed by a long length field
+    static const char *odd[] = { "fp+bad", "fp+loc", "fp+rem", "fp+trunc", "u+fp+loc", "u+fp+rem", "fpbad+loc", "fpbad+rem", "fp+fp+rem",
+                                 "bad+loc", "bad+rem", "loc+bad", "rem+bad", "loc+loc+fp", "rem+rem", "trunc+loc", "trunc+rem", "loc+trunc", "rem+trunc+fp",
+                                 "u+loc+fp", "u+u+rem", "u+bad", "sw+loc", "sw+rem", "u+sw+rem+fp", "loc+sw", "rem+sw+fp", "loc+fpbad", "rem+fpbad",
+                                 "loc+u+fp", "rem+u+fp", "rem+u+fpbad", "u", "u+fp", "sw", "fpbad", "fp+fpbad+rem" };
+    for (int src : { 1, 8 })
+        for (const char *cls : clss)
+            for (const char *lay : odd) {
+                const bool isReq = !strcmp(cls, "req") || !strcmp(cls, "ind");
+                if (!full && !strcmp(cls, "ind")) continue;
+                if (!full && !strcmp(cls, "err") && src == 1) continue;
+                if (isReq) a.push_back(mk(src, cls, lay, 7100, false, 'n', src == 8 ? 1845493759ull : 1853817087ull, src == 1 ? 1 : 0));
+                else a.push_back(mk(src, cls, lay, 999));
+            }
     a.push_back(mk(8, "req", "abs", 7001, true, 'n', 0xffffffffull, 0, 'o'));
     a.push_back(mk(8, "req", "loc", 7001, false, 'n', 5, 0, 'o'));
     a.push_back(appDg(8, QByteArray::fromHex("80c8000102030405")));
@@ -566,7 +629,15 @@ static Dg randomDg(Rng &rng, int comp)
     const bool isReq = d.cls == "req" || d.cls == "ind";
     const char *valid = isReq ? "loc" : "rem", *other = isReq ? "rem" : "loc";
     unsigned r = rng.below(100);
-    d.mi = r < 25 ? "abs" : r < 55 ? valid : r < 65 ? other : r < 85 ? "bad" : "trunc";
+    d.mi = layoutOf(r < 25 ? "abs" : r < 55 ? valid : r < 65 ? other : r < 85 ? "bad" : "trunc");
+    if (rng.below(4) == 0) {
+        // a random layout of 1..5 integrity-relevant attributes in any order
+        static const char *toks[] = { "loc", "rem", "bad", "trunc", "fp", "fp", "fpbad", "u", "u", "sw" };
+        std::string l;
+        const int n = 1 + rng.below(5);
+        for (int i = 0; i < n; i++) { if (i) l += "+"; const unsigned k = rng.below(12); l += (k >= 10 ? valid : toks[k]); }
+        d.mi = l;
+    }
     if (isReq) d.txid = 1000 + rng.below(100000);
     else d.txid = rng.below(10) < 7 ? 999 : (rng.coin() ? rng.below(3) : 1000 + rng.below(100000));
     d.uc = rng.coin();
@@ -617,6 +688,7 @@ static void part1(const Args &a, Rng &rng)
         D(mk(8, "req", "bad", 7002, true)); D(mk(8, "rsp", "trunc", 999)); D(mk(8, "req", "rem", 7003, true));
         D(mk(1, "req", "loc", 7004, true, 'n', 1853817087ull, 1)); D(mk(1, "req", "loc", 7005, false, 'n', 1853817087ull, 1));
         D(mk(1, "rsp", "rem", 999)); D(mk(1, "err", "rem", 999)); D(mk(1, "rsp", "abs", 999));
+        D(mk(8, "req", "fp+bad", 7006, true)); D(mk(8, "rsp", "fp+rem", 999)); D(mk(1, "rsp", "sw+rem", 999)); D(mk(8, "req", "u+fp+loc", 7007, false));
         small.push_back({ "tick", Dg() }); small.push_back({ "timeout 0", Dg() }); small.push_back({ "timeout 1", Dg() }); small.push_back({ "connect", Dg() });
         const int depth = thorough ? 3 : 2;
         std::vector<int> idx(depth, 0);
@@ -637,7 +709,7 @@ static void part1(const Args &a, Rng &rng)
     }
     // ---- an attacker datagram at every point of an honest negotiation played by the harness
     std::vector<Dg> att;
-    for (const Dg &d : alpha) if (d.src == 8 && (thorough || d.mi == "abs" || d.mi == "bad" || d.mi == "trunc")) att.push_back(d);
+    for (const Dg &d : alpha) if (d.src == 8 && !d.app && (thorough || (!d.authentic() && (d.plain() || d.mi.rfind("fp+", 0) == 0 || d.mi.rfind("sw+", 0) == 0)))) att.push_back(d);
     for (int ctl = 0; ctl < 2; ctl++)
         for (int order = 0; order < 2; order++) {
             const int comp = comps[(ctl + order) % 3];
@@ -768,9 +840,9 @@ static bool runPairOnce(const PairCase &pc, Rng &rng, int deadlineMs, bool final
         for (Agent *t : { &A, &B }) {
             Creds c; c.localUser = t->conn->localUser(); c.localPw = QStringLiteral("attacker-does-not-know-it");
             c.remoteUser = (t == &A ? B : A).conn->localUser(); c.remotePw = QStringLiteral("attacker-does-not-know-that-either");
-            static const char *mis[] = { "bad", "trunc", "rem", "loc" };
-            Dg d = mk(8, rng.coin() ? "req" : "rsp", mis[rng.below(4)], 1000 + rng.below(1000), rng.coin(), "ngd"[rng.below(3)], rng.next() & 0xffffffffull, rng.below(3));
-            if (d.authentic()) d.mi = "bad";   // "loc"/"rem" are computed with the attacker's made-up passwords anyway: forged under a wrong key
+            static const char *mis[] = { "bad", "trunc", "rem", "loc", "fp+bad", "fp+loc", "fp+rem", "u+fp+trunc", "sw+loc", "fpbad+rem" };
+            Dg d = mk(8, rng.coin() ? "req" : "rsp", mis[rng.below(10)], 1000 + rng.below(1000), rng.coin(), "ngd"[rng.below(3)], rng.next() & 0xffffffffull, rng.below(3));
+            if (d.authentic()) d.mi = "bad+fp";   // "loc"/"rem" are computed with the attacker's made-up passwords anyway: forged under a wrong key
             QList<QByteArray> none;
             X->writeDatagram(forge(d, c, none, QHostAddress(LOOP), t->port(), rng), QHostAddress(LOOP), t->port());
             sentForged++;
